@@ -189,6 +189,8 @@ pub struct EfgStyle {
     pub spell: bool,
     /// with `spell`: some numbers are written with more than 308 digits
     pub long_digits: bool,
+    /// lines end in CR LF, with a blank line and trailing spaces at the end of the file
+    pub crlf: bool,
 }
 
 impl EfgStyle {
@@ -223,6 +225,7 @@ impl EfgStyle {
             chance_base: *r.pick(&[0u64, 0, 1, 1, 7]),
             spell: r.coin(0.3),
             long_digits: r.coin(0.3),
+            crlf: r.coin(0.15),
         }
     }
     pub fn plain() -> Self {
@@ -243,6 +246,7 @@ impl EfgStyle {
             chance_base: 1,
             spell: false,
             long_digits: false,
+            crlf: false,
         }
     }
 }
@@ -617,6 +621,9 @@ pub fn to_efg(model: &MNode, r: &mut Rng, st: &EfgStyle) -> EfgWritten {
             let cli = if w.info_named[p][info] { info.clone() } else { num.to_string() };
             names[p].insert(info.clone(), cli);
         }
+    }
+    if st.crlf {
+        w.out = w.out.replace('\n', "\r\n") + "\r\n  \r\n";
     }
     EfgWritten { text: w.out, names, constant: st.constant_milli as f64 / 1000.0, slack: w.used_slack as f64 / 1000.0 }
 }
